@@ -1561,3 +1561,79 @@ pa_layout_inst! {
     c01_pa_layout_n3 = 3;
     c01_pa_layout_n4 = 4;
 }
+
+// --------------------------------------------------------------------------------------------
+// C04, long-term key derivation: what HMACKey::new_long_term hands to the hash.  The real function runs
+// with the real `format!` (no fmt stub in this query); the hash (HMACKey::get_key: MD5 / SHA-256) is a
+// recording stub; PRECIS is modelled so that enforcement and preparation are distinguishable:
+// preparation validates only, enforcement also rewrites one designated character ('~' -> '-', standing
+// for any code point OpaqueString enforcement maps or normalises).  Decided: the hashed text is
+// user ":" Enforce(realm) ":" Enforce(password).
+// --------------------------------------------------------------------------------------------
+static mut KEY_TEXT: [u8; 8] = [0; 8];
+static mut KEY_LEN: usize = 0;
+static mut KEY_CALLS: usize = 0;
+fn get_key_rec(key: &str, _params: &Algorithm) -> Result<Vec<u8>, crate::StunError> {
+    let b = key.as_bytes();
+    unsafe {
+        KEY_LEN = b.len();
+        KEY_CALLS += 1;
+        let mut i = 0;
+        while i < 8 && i < b.len() {
+            KEY_TEXT[i] = b[i];
+            i += 1;
+        }
+    }
+    Ok(Vec::new())
+}
+fn precis_prepare_model(s: &str) -> Result<std::borrow::Cow<'_, str>, precis_core::Error> {
+    precis_ascii(s)
+}
+fn precis_enforce_model(s: &str) -> Result<std::borrow::Cow<'_, str>, precis_core::Error> {
+    let b = s.as_bytes();
+    if b.len() != 1 {
+        // the harness only supplies one-character texts
+        return Err(precis_core::Error::Invalid);
+    }
+    if !(b[0] >= 0x20 && b[0] < 0x7f) {
+        return Err(precis_core::Error::Invalid);
+    }
+    if b[0] == b'~' {
+        Ok(std::borrow::Cow::Owned(String::from("-")))
+    } else {
+        Ok(std::borrow::Cow::Borrowed(s))
+    }
+}
+#[kani::proof]
+#[kani::unwind(10)]
+#[kani::stub(crate::strings::opaque_string_prepapre, precis_prepare_model)]
+#[kani::stub(crate::strings::opaque_string_enforce, precis_enforce_model)]
+#[kani::stub(crate::types::HMACKey::get_key, get_key_rec)]
+fn c04_long_term_key_text() {
+    let u: u8 = kani::any();
+    let r: u8 = kani::any();
+    let p: u8 = kani::any();
+    kani::assume(u >= 0x21 && u < 0x7f && r >= 0x21 && r < 0x7f && p >= 0x21 && p < 0x7f);
+    let ub = [u];
+    let rb = [r];
+    let pb = [p];
+    let us = unsafe { std::str::from_utf8_unchecked(&ub) };
+    let rs = unsafe { std::str::from_utf8_unchecked(&rb) };
+    let ps = unsafe { std::str::from_utf8_unchecked(&pb) };
+    let alg = Algorithm::from(AlgorithmId::MD5);
+    unsafe {
+        KEY_CALLS = 0;
+    }
+    let k = crate::types::HMACKey::new_long_term(us, rs, ps, &alg);
+    assert!(k.is_ok(), "C04: a key is derived for every printable one-character user / realm / password");
+    let enf = |c: u8| if c == b'~' { b'-' } else { c };
+    unsafe {
+        assert!(KEY_CALLS == 1);
+        assert!(KEY_LEN == 5, "C04: hashed text is user:realm:password");
+        assert!(KEY_TEXT[0] == u && KEY_TEXT[1] == b':' && KEY_TEXT[3] == b':', "C04: hashed text is user:realm:password");
+        assert!(KEY_TEXT[2] == enf(r), "C04: the realm is OpaqueString-enforced before hashing");
+        assert!(KEY_TEXT[4] == enf(p), "C04: the password is OpaqueString-enforced before hashing");
+    }
+    kani::cover!(r == b'~');
+    std::mem::forget(k);
+}
